@@ -522,6 +522,44 @@ def h_default_history(ctx, n=2, prefix="C17"):
         ctx.prove(f"{prefix}.default_times_of_a_path_do_not_depend_on_the_paths_valued_before", same(got, want), info={"n": n, "object": name}, replay=rp)
 
 
+def replay_nth_default_identity(sc):
+    """real DefaultTimeNthUnderlying: identity representation on (path, jump path) against the log representation on the logarithm of the
+    same jump path; the path itself (drift + diffusion + jumps) differs from the jump path"""
+    times = np.array([0.0, 0.5, 1.0, 1.5])
+    a = [-0.2, -0.3]
+    jump = np.array([[1.0, 0.7, 0.7, 0.7], [1.0, 1.0, 0.6, 0.6]])
+    path = np.array([[100.0, 104.0, 99.0, 101.0], [50.0, 51.0, 52.0, 20.0]])
+    out = []
+    for k in (1, 2):
+        got = UND.DefaultTimeNthUnderlying(default_levels=a, underlying_index=k).value(times, path, jump)
+        want = UND.DefaultTimeNthUnderlying(default_levels=a, underlying_index=k)._value_log(times, np.log(path), np.log(jump))
+        if got != want:
+            out.append(f"name {k}: identity representation gives default time {got}, log representation {want} (jump path {jump[k - 1].tolist()}, path {path[k - 1].tolist()})")
+    return bool(out), "; ".join(out) if out else "identity and log representations agree on the default time of each name"
+
+
+def h_nth_default_identity(ctx):
+    """default time of the k-th name: the identity representation reads the jump path (not the full path) and agrees with the log
+    representation on the logarithms"""
+    times = sym_times(ctx, 2)
+    a = [ctx.real("a0"), ctx.real("a1")]
+    for x in a:
+        ctx.assume(x < 0)
+    jump = np.empty((2, 2), dtype=object)
+    path = np.empty((2, 2), dtype=object)
+    ljump = np.empty((2, 2), dtype=object)
+    for k in range(2):
+        for i in range(2):
+            jump[k, i], path[k, i] = ctx.real(f"j{k}_{i}"), ctx.real(f"p{k}_{i}")
+            ctx.assume(AND(jump[k, i] > 0, path[k, i] > 0))
+            ljump[k, i] = shims.sym_log(jump[k, i])
+    for k in (1, 2):
+        got = UND.DefaultTimeNthUnderlying(default_levels=a, underlying_index=k).value(times, path, jump)
+        want = UND.DefaultTimeNthUnderlying(default_levels=a, underlying_index=k)._value_log(times, None, ljump)
+        same = (got == want) if (isinstance(got, float) or isinstance(want, float)) else EQ(got, want)
+        ctx.prove("C17.default_time_of_a_name_follows_its_jump_path_in_both_representations", same, info={"name": k}, replay=(replay_nth_default_identity, lambda m: {}), timeout_ms=15000)
+
+
 def h_twin(ctx):
     s, k = ctx.real("s"), ctx.real("k")
     call = PAY.Vanilla(strike=k, payoff_type=PT_.CALL)
@@ -545,6 +583,7 @@ def harnesses(tier):
         hs.append(Harness(f"barrier.mlmc_pair.{bt}", h_mlmc_barrier, {"n": 2, "bt": bt}, max_paths=20000, batch=20))
         hs.append(Harness(f"barrier.representation.{bt}", h_barrier_representation, {"n": 2, "bt": bt}, max_paths=20000, batch=20))
     hs.append(Harness("default.history", h_default_history, {"n": 2}, max_paths=4000, batch=20))
+    hs.append(Harness("default.nth_identity", h_nth_default_identity, max_paths=4000, batch=20))
     hs.append(Harness("rainbow", h_rainbow, max_paths=2000))
     hs.append(Harness("representation", h_representation, {"n": 2}, max_paths=2000))
     hs.append(Harness("representation.shared_underlying", h_shared_underlying, {"n": 2}, max_paths=2000))
